@@ -57,7 +57,10 @@ def _case(draw):
                 dt=L * frac, rtol=draw(st.sampled_from([1e-4, 1e-7])), atol=1e-7, dense=draw(st.booleans()), user_jac=draw(st.booleans()),
                 events=events, fault_at=draw(st.sampled_from([None, None, None, 3, 7, 12, 25])), reset_after=draw(st.booleans()),
                 set_dt=draw(st.sampled_from([None, None, 0.5, 0.25, "keep", "cap"])),
-                prewrap=draw(st.sampled_from(["none", "none", "none", "wrapped", "wrapped_jac", "second_system"])))
+                prewrap=draw(st.sampled_from(["none", "none", "none", "wrapped", "wrapped_jac", "second_system"])),
+                # after the run: direct Jacobian requests interleaved with hooking / unhooking a Jacobian and changing the
+                # finite-difference order - none of which is a request, none of which resets a counter
+                hook_dance=draw(st.lists(st.sampled_from(["request", "request", "unhook", "hook", "set_order"]), min_size=0, max_size=5)))
 
 
 def parts(tier):
@@ -136,7 +139,7 @@ def check(case):
                     method, a.nfev, cnt["rhs"] - base["rhs"], where, "; right-hand side handed over " + case.get("prewrap", "none") if case.get("prewrap", "none") != "none" else ""), sig, **attrs))
             if a.njev != cnt["jac_requests"] - base["jac_requests"]:
                 out.append(V("njev", "{}: njev = {} but {} Jacobian requests were made ({})".format(method, a.njev, cnt["jac_requests"] - base["jac_requests"], where), sig, **attrs))
-            if case["user_jac"] and cnt["ujac"] != cnt["jac_requests"]:
+            if case["user_jac"] and cnt["ujac"] != cnt["jac_requests"] and not cnt.get("dance"):
                 out.append(V("user_jacobian_calls", "{}: {} Jacobian requests but the attached user Jacobian ran {} times ({})".format(method, cnt["jac_requests"], cnt["ujac"], where), sig, **attrs))
             return out
         viols += counters("after construction")
@@ -273,6 +276,28 @@ def check(case):
                 break
             if phase == "first" and not failed and "after_failure" in phases:
                 phases.remove("after_failure")
+        if not viols and case.get("hook_dance"):
+            cnt["dance"] = True
+            r = a.equ_rhs
+            tq, yq = np.float64(a.t[-1]), np.asarray(a.y[-1]).copy()
+
+            def hooked(t, y, **kw):
+                return f.jac(t, y)
+            armed, cnt["fault_armed"] = cnt["fault_armed"], None
+            for i_op, op in enumerate(case["hook_dance"]):
+                if op == "request":
+                    r.jac(tq, yq + 0.0625 * i_op)
+                elif op == "unhook":
+                    r.unhook_jacobian_call()
+                elif op == "hook":
+                    r.hook_jacobian_call(hooked)
+                else:
+                    r.set_jac_base_order(4)
+                viols += counters("after the run, step {} ({}) of the sequence {}".format(i_op, op, case["hook_dance"]))
+                if viols:
+                    break
+            cnt["fault_armed"] = armed
+            labels.append("jacobian_hook_sequence")
     finally:
         ds.DiffRHS.jac = orig_jac
     nontrivial = bool(rejected or terminal_hit or fam.startswith("implicit") or "fault_injected" in labels or case["reset_after"])
